@@ -12,6 +12,7 @@ import itertools
 
 from d42 import fake, optional, represent, schema, substitute, validate, validate_or_fail
 from d42.declaration import Schema
+from d42.declaration.types import TypeAliasSchema
 from d42.utils import from_native, make_required
 from d42.validation import ValidationResult
 
@@ -55,9 +56,9 @@ class State:
         self.pool = [schema.int.min(0), schema.str.len(1, 2), schema.list(self.L0),
                      schema.dict(self.D0), schema.any(schema.int, schema.str),
                      schema.list(schema.int), schema.str.regex("\\d\\w[^a]"),
-                     schema.dict({"a": schema.int, ...: ...})]
+                     schema.dict({"a": schema.int, ...: ...}), TypeAliasSchema()]
         self.names = ["int.min(0)", "str.len(1,2)", "list(L0)", "dict(D0)", "any(int,str)", "list(int)",
-                      "str.regex", "dict(a, ...)"]
+                      "str.regex", "dict(a, ...)", "bare TypeAliasSchema()"]
         self.entry = []           # snapshot of each pooled schema when it entered
         self.G = None             # last container returned by fake
         self.R = None             # last ValidationResult
@@ -119,6 +120,10 @@ def events():
     # the other dict operations
     ev += [("add", 7, 7), ("add", 7, 3), ("add", 3, 7), ("validate", 7, "v_dict"), ("subst", 7, "v_dict"),
            ("repr", 7), ("mkreq", 7, None), ("getitem", 7, "a"), ("iter", 7), ("gen", 7)]
+    # member 8, an alias declared without name or type (the class itself is public): read-only use
+    ev += [("repr", 8), ("validate", 8, "v_int"), ("gen", 8), ("eq", 8, 8), ("subst", 8, "v_int")]
+    # make_required with the keys given as a SET the caller goes on holding
+    ev += [("mkreq_set", 3, ("a", "b")), ("mkreq_set", 3, ("a",)), ("mkreq_set", 7, ("a",))]
     ev += [("subst_untyped", vn) for vn in COLLIDING_LISTS]
     ev += [("subst_untyped_dict", vn) for vn in COLLIDING[:3]]
     muts = [("mut", "E0.append"), ("mut", "L0.append"), ("mut", "L0.clear"), ("mut", "L0.setitem"), ("mut", "D0.set"),
@@ -208,6 +213,9 @@ def step(st, e, rng):
             keys = arg("keys", list(e[2])) if e[2] is not None else None
             return (make_required(st.pool[e[1]]) if keys is None
                     else make_required(st.pool[e[1]], keys)), args
+        if k == "mkreq_set":
+            keys = arg("keys", set(e[2]))
+            return make_required(st.pool[e[1]], keys), args
         if k == "mkreq_fail":
             return make_required(st.pool[e[1]], ["zz"]), args
         if k == "getitem":
@@ -399,6 +407,8 @@ def core_events():
         if len(e) > 1 and e[1] == 6:
             continue
         if len(e) > 1 and e[1] == 7 and e[0] != "add":
+            continue
+        if len(e) > 1 and e[1] == 8 and e[0] != "repr":
             continue
         if e[0] in ("validate", "subst") and isinstance(e[1], int) and e[1] in (0, 1, 4) \
                 and e[2] != "v_list":
